@@ -158,3 +158,36 @@ def run(case, out):
         _cmp(out, "concatenate", out.call("concatenate", fa.concatenate, fb), M.Sub(M.concat(ra, rb)), alpha)
         _cmp(out, "kleene_star", out.call("kleene_star", fa.kleene_star), M.Sub(M.star(ra)), alpha)
         out.probe("rational_ops_run")
+    # --- operations on the results of operations ---------------------------------------------------------------
+    # the first result (tuple-named states, several start states, no state at all, an alphabet larger than the symbols
+    # in use, ...) is the operand of a second operation; its reference is its own extraction
+    firsts = [("union", lambda: G.build(ca).union(fb)), ("concatenate", lambda: G.build(ca).concatenate(fb)),
+              ("kleene_star", lambda: G.build(ca).kleene_star()), ("get_complement", lambda: G.build(ca).get_complement()),
+              ("get_intersection", lambda: G.build(ca).get_intersection(fb)),
+              ("get_difference", lambda: G.build(ca).get_difference(fb)), ("reverse", lambda: G.build(ca).reverse()),
+              ("minimize", lambda: G.build(ca).minimize()), ("to_deterministic", lambda: G.build(ca).to_deterministic())]
+    pick = int(out.shape[:6], 16)
+    for k in range(2):
+        n1, f1 = firsts[(pick + 4 * k) % len(firsts)]
+        r1 = out.call(n1 + "(first)", f1)
+        if r1 is FAILED:
+            continue
+        x = G.extract(r1)
+        if len(x.states) > 10:
+            continue
+        X = M.Sub(x)
+        sig1 = {G.key(s.value) for s in r1.symbols}
+        al = alpha | x.alphabet
+        seconds = [("get_complement", lambda: r1.get_complement(), lambda: M.Not(X, sig1)),
+                   ("reverse", lambda: r1.reverse(), lambda: M.Sub(M.reverse(x))),
+                   ("kleene_star", lambda: r1.kleene_star(), lambda: M.Sub(M.star(x))),
+                   ("get_intersection", lambda: r1.get_intersection(fb), lambda: M.And(X, B)),
+                   ("union", lambda: r1.union(fb), lambda: M.Or(X, B)),
+                   ("get_difference", lambda: r1.get_difference(fb), lambda: M.Diff(X, B)),
+                   ("concatenate", lambda: r1.concatenate(fb), lambda: M.Sub(M.concat(x, rb))),
+                   ("rhs.get_intersection", lambda: fb.get_intersection(r1), lambda: M.And(B, X)),
+                   ("rhs.get_difference", lambda: fb.get_difference(r1), lambda: M.Diff(B, X))]
+        for j in range(2):
+            n2, f2, w2 = seconds[(pick // 7 + 5 * j + k) % len(seconds)]
+            _cmp(out, n1 + "." + n2, out.call(n1 + "." + n2, f2), w2(), al)
+        out.probe("operation_on_a_result")
